@@ -90,6 +90,9 @@ func evalProg(p *Prog) *progEval {
 			ev.VMOut[i][t] = out
 			ev.Calls++
 			if out == "BIG" {
+				if os.Getenv("C14_DEBUG") != "" {
+					fmt.Printf("DEBUG BIG %s(%s) go=%s\n%s\n", f.Name, strings.Join(tu, ","), goOut[i][t], trunc(f.Src, 400))
+				}
 				ev.Big++
 				ev.Outcome["excluded-beyond-64-bits"]++
 				continue
